@@ -792,6 +792,14 @@ func lengthsFor(T int, dense int) []int {
 			set[l] = true
 		}
 	}
+	// multiples of the inflater's 32 KiB window: id + payload lands exactly on a window boundary for one of the
+	// id widths, so the last decompressed bytes come out by a window flush and the stream's closing block and
+	// checksum are still unread when the declared size has been delivered
+	for _, B := range []int{1 << 15, 2 << 15, 3 << 15} {
+		for l := B - 6; l <= B+1; l++ {
+			set[l] = true
+		}
+	}
 	out := make([]int, 0, len(set))
 	for l := range set {
 		if l <= maxData+2 {
@@ -892,7 +900,7 @@ func runParts() {
 	rep.Count("matrix_cases_beyond_2MiB_unspecified", matrixUnspec)
 	rep.Extra("matrix_ids", matrixIDs)
 	rep.Extra("matrix_thresholds", thresholds)
-	rep.Extra("matrix_dense_lengths", fmt.Sprintf("0..%d plus T-3..T+3 plus [B-13,B+2] for B in 2^7,2^14,2^21", dense))
+	rep.Extra("matrix_dense_lengths", fmt.Sprintf("0..%d plus T-3..T+3 plus [B-13,B+2] for B in 2^7,2^14,2^21 plus [B-6,B+1] for B in 1,2,3 x 2^15", dense))
 	if !thorough {
 		rep.Extra("matrix_big_payload_restriction", "payload >= 1 MiB: ids {0,0x80,0x4000,2^21,-1} (one per VarInt length) x thresholds {-1,0,256,2^21-5,2^21}")
 	}
